@@ -113,6 +113,12 @@ TRANSPARENT_WRAPPERS = (
 )
 
 
+MAP_ADAPTERS = {
+    "core::option::Option::<T>::map": "Some",
+    "core::result::Result::<T, E>::map": "Ok",
+}
+
+
 def peel(t, extra=()):
     """strip reference/deref/transparent wrappers; `extra` adds callee suffixes treated as identity"""
     while True:
@@ -155,6 +161,8 @@ def chain(t, extra=()):
         elif t[0] == "downcast":
             names.append("@" + t[2])
             t = t[1]
+        elif t[0] == "call" and len(t) > 5 and t[4] in MAP_ADAPTERS:
+            t = t[5]
         else:
             break
     names.reverse()
@@ -250,6 +258,35 @@ def show(t, depth=0):
     if k == "repeat":
         return "[%s; %s]" % (show(t[1], d), t[2])
     return "%s" % (t,) if len(str(t)) < 80 else "<%s>" % k
+
+
+def _simplify_try(x, cont):
+    """payload of `?` applied to x.  When x is (partly) a freshly built Ok(v) / Err(e) / Some(v) -- the result of an
+    inlined helper -- the payload is v (the Err / from_residual alternatives never take the Continue edge)."""
+    alts = phi_alts(peel(x))
+    if not any(a[0] == "agg" and a[1] == "adt" and a[2] in ("core::result::Result", "core::option::Option") for a in alts):
+        return ("ok", x) if cont else ("residual", x)
+    pay, rest = [], []
+    for a in alts:
+        if a[0] == "agg" and a[1] == "adt" and a[2] in ("core::result::Result", "core::option::Option"):
+            if cont and a[3] in ("Ok", "Some") and a[5]:
+                pay.append(a[5][0])
+            elif not cont and a[3] in ("Err", "None"):
+                pay.append(a)
+        elif is_call(a, "core::ops::FromResidual::from_residual"):
+            if not cont:
+                rest.append(a)
+        else:
+            rest.append(a)
+    if rest:
+        pay.append(("ok", rest[0] if len(rest) == 1 else ("phi", rest)) if cont else ("residual", rest[0] if len(rest) == 1 else ("phi", rest)))
+    if not pay:
+        return ("ok", x) if cont else ("residual", x)
+    uniq = []
+    for p in pay:
+        if p not in uniq:
+            uniq.append(p)
+    return uniq[0] if len(uniq) == 1 else ("phi", uniq)
 
 
 # ----------------------------------------------------------------------------------------------
@@ -570,8 +607,45 @@ class Body:
         args = [self.operand_term(a) for a in c.args]
         if c.fn is None:
             return ("call", bb, None, args, None)
+        if c.path == "core::ops::FromResidual::from_residual" and args:
+            # `?` applied to a value that is known to be Err(e) (result of an inlined helper): Err(From::from(e))
+            a = peel(args[0])
+            if a[0] == "agg" and a[1] == "adt" and a[2] == "core::result::Result" and a[3] == "Err" and a[5]:
+                conv = ("call", bb, "core::convert::From::from", [a[5][0]], "core::convert::From::from")
+                return ("agg", "adt", "core::result::Result", "Err", ["0"], [conv])
+        if c.path in MAP_ADAPTERS and len(args) == 2:
+            # `opt.map(|x| ..)`: the closure's result with x bound to the payload -- lets chain() follow projections
+            # like `.map(|entry| &mut entry.state)`
+            via = self._closure_result(args[1], args[0], MAP_ADAPTERS[c.path])
+            if via is not None:
+                return ("call", bb, c.key, args, c.path, via)
         t = ("call", bb, c.key, args, c.path)
         return t
+
+    def _closure_result(self, clos, recv, variant):
+        """return value of the closure term `clos` applied to the `variant` payload of `recv`"""
+        cdef, env = None, {}
+        for x in phi_alts(peel(clos)):
+            if x[0] == "agg" and x[1] == "closure":
+                cdef = x[2]
+                env = dict(zip(x[4], x[5]))
+            elif x[0] == "const" and x[4] and str(x[4]).startswith("closure:"):
+                cdef = x[4][len("closure:"):]
+        cb = self.facts.bodies.get(cdef) if cdef else None
+        if cb is None or cb.arg_count < 2 or getattr(cb, "_in_result", False):
+            return None
+        cb._in_result = True
+        try:
+            adt = "core::option::Option" if variant == "Some" else "core::result::Result"
+            payload = ("field", ("downcast", recv, variant), "0", adt, variant)
+            mapping = {cb.param_name(2): payload}
+            for k, v in env.items():
+                mapping[k] = v
+                if k.startswith("_ref__"):
+                    mapping[k] = v
+            return subst(cb.local_term(0), mapping)
+        finally:
+            cb._in_result = False
 
     def place_term(self, p):
         t = self.local_term(p["l"])
@@ -616,6 +690,9 @@ class Body:
                     pass
             elif name in t[4]:
                 return t[5][t[4].index(name)]
+        # captured variable of a closure / coroutine whose body was inlined here (normalize.py)
+        if t[0] == "agg" and t[1] in ("closure", "coroutine", "coroutine_closure") and e.get("of") == t[2] and name in t[4]:
+            return t[5][t[4].index(name)]
         if t[0] == "downcast":
             inner = t[1]
             v = t[2]
@@ -630,9 +707,30 @@ class Body:
                 for alt in phi_alts(inner):
                     if is_call(alt, "core::ops::Try::branch"):
                         x = alt[3][0] if alt[3] else ("unknown",)
-                        return ("ok", x) if v == "Continue" else ("residual", x)
+                        return _simplify_try(x, v == "Continue")
             if inner[0] == "agg" and inner[1] == "adt" and inner[3] == v and name in inner[4]:
                 return inner[5][inner[4].index(name)]
+            # several definitions, some of them freshly built values: the downcast selects those of variant v
+            alts = phi_alts(inner)
+            if len(alts) > 1 and any(a[0] == "agg" and a[1] == "adt" for a in alts):
+                sel, rest = [], []
+                for a in alts:
+                    if a[0] == "agg" and a[1] == "adt":
+                        if a[3] == v and name in a[4]:
+                            sel.append(a[5][a[4].index(name)])
+                    elif v in ("Ok", "Some") and is_call(a, "core::ops::FromResidual::from_residual"):
+                        pass  # never the success variant
+                    else:
+                        rest.append(a)
+                if rest:
+                    r = rest[0] if len(rest) == 1 else ("phi", rest)
+                    sel.append(("field", ("downcast", r, v), name, e.get("of"), e.get("variant")))
+                if sel:
+                    uniq = []
+                    for x in sel:
+                        if x not in uniq:
+                            uniq.append(x)
+                    return uniq[0] if len(uniq) == 1 else ("phi", uniq)
         return ("field", t, name, e.get("of"), e.get("variant"))
 
     def operand_term(self, o):
@@ -794,7 +892,8 @@ class Body:
 
 class Facts:
     def __init__(self, path):
-        raw = json.load(open(path))
+        from . import normalize
+        raw, self.normalization = normalize.normalize_text(open(path).read())
         self.raw = raw
         self.cfg = raw.get("cfg")
         self.nonce = raw.get("nonce")
